@@ -874,6 +874,70 @@ def read_options_case(rec, rng):
         shutil.rmtree(root, ignore_errors=True)
 
 
+def compressed_case(rec, rng):
+    """Configuration: a fileset of gzip-compressed files (read through a temporary decompressed copy) with a
+    reader that fails on one file under error_to_warning; the FileInfo paired with every result - and what
+    the same FileSet finds afterwards - names the file of the fileset."""
+    import gzip
+    from typhon.files import FileSet, FileHandler
+    root = scratch_dir("c10z")
+    try:
+        n = 6
+        files = build_tree(root, n, prefix="p")
+        paths = []
+        for p_, t0, t1, fid in files:
+            with open(p_, "rb") as fh, gzip.open(p_ + ".gz", "wb") as gz:
+                gz.write(fh.read())
+            os.unlink(p_)
+            paths.append(p_ + ".gz")
+        ids = [f[3] for f in files]
+        s0, s1 = dt.datetime(2017, 6, 1), dt.datetime(2017, 6, 3)
+        for wt in ("thread", "process"):
+            fs = FileSet(path="%s/p/%s.gz" % (root, TEMPLATE), name="Z", handler=FileHandler(reader=reader_scaled),
+                         worker_type=wt)
+            case = {"kind": "compressed", "worker_type": wt}
+            rec.ev()
+            rec.count("exec.compressed_filesets")
+            bad = rng.choice(ids[:-2])
+            try:
+                _BAD.clear()
+                _BAD.add(bad)
+                with warnings.catch_warnings():
+                    warnings.simplefilter("ignore")
+                    got = fs.map(sum_content, start=s0, end=s1, on_content=True, return_info=True,
+                                 error_to_warning=True, max_workers=2)
+                _BAD.clear()
+                got_paths = [os.path.abspath(str(info.path)) for info, _ in got]
+                got_vals = [r for _, r in got]
+                want_vals = [None if i == bad else i for i in ids]
+                if got_paths != paths or got_vals != want_vals:
+                    rec.violation("results-wrong", case,
+                                  {"why": "compressed fileset, one unreadable file, return_info",
+                                   "info_paths": [os.path.relpath(q, root) if q.startswith(root) else q
+                                                  for q in got_paths],
+                                   "want_paths": [os.path.relpath(q, root) for q in paths],
+                                   "results": got_vals, "want": want_vals})
+                    continue
+                # the same FileSet afterwards
+                again = [os.path.abspath(str(i.path)) for i in fs.find(s0, s1)]
+                vals = fs.collect(s0, s1)
+                if again != paths or vals != ids:
+                    rec.violation("results-wrong", case,
+                                  {"why": "same FileSet after a failed read of a compressed file",
+                                   "found": [os.path.relpath(q, root) if q.startswith(root) else q for q in again],
+                                   "collected": vals, "want": ids})
+                    continue
+                rec.nontriv(["compressed", wt], [wt, bad])
+            except Exception as exc:
+                rec.violation("unexpected-exception", case, {"exception": repr(exc),
+                                                             "trace": traceback.format_exc()[-1500:]})
+            finally:
+                _BAD.clear()
+    finally:
+        gc.collect()
+        shutil.rmtree(root, ignore_errors=True)
+
+
 _LAZY = {"event": None, "last": None, "gave_up": False}
 
 
@@ -938,6 +1002,8 @@ def run_shard(spec, rec):
         read_options_case(rec, rng_for(spec["seed"], "c10-readopt", spec["shard"]))
     if spec["shard"] < 4:
         two_filesets_case(rec, rng_for(spec["seed"], "c10-two", spec["shard"]))
+    if 11 <= spec["shard"] < 14:
+        compressed_case(rec, rng_for(spec["seed"], "c10-gz", spec["shard"]))
     if spec["kind"] == "enum":
         run_enum(spec, rec)
     elif spec["kind"] == "sampled":
@@ -955,6 +1021,10 @@ def replay(case, rec):
     if case.get("kind") == "read-options":
         for k in range(3):
             read_options_case(rec, rng_for(k, "c10-readopt-replay"))
+        return
+    if case.get("kind") == "compressed":
+        for k in range(3):
+            compressed_case(rec, rng_for(k, "c10-gz-replay"))
         return
     if case.get("kind") == "tail-laziness":
         for k in range(4):
